@@ -17,6 +17,8 @@ CLAIMS = {
  'C11': ('ctl lattice: per request, any int32 value on any (havocked) encoder/decoder state: accepted iff legal, stored and read back, rejection with the documented error leaves every byte unchanged, unknown requests unimplemented, null getters rejected; honouring in the bitstream is not claimed here', '2/C11'),
  'C02': ('symbol-layer lock-step: real SILK index encoder vs real decoder over a tape coder for every legal index value (per fs/sub-frame/conditional-coding case), and TOC synthesis read back by the inspection helpers; the frame coders and the encode glue are not claimed', '2/C02'),
  'C10': ('layout validation and channel lookup vs a direct specification, ambisonics channel-count rule, demixing x mixing == gain-scaled identity for the built-in orders (exact integer arithmetic, symbolic cell), saturating 16-bit projection accumulation, and decoder channel routing with stubbed stream decoders; encoder-side layouts/concatenation not claimed', '2/C10'),
+ 'C12': ('state bytes after init are independent of previous memory contents and of the object address (whole decoder object; encoder per sub-state), init and reset stay inside the size-query bytes, and OPUS_RESET_STATE from an arbitrary signal history with arbitrary settings leaves every byte equal to a freshly initialised object with those settings (decided per sub-state and composed through pointer-recording stubs); determinism of later encode/decode calls follows only because the codec has no other mutable storage and is not itself executed', '2/C12'),
+ 'C19': ('soft clipper: in-range input with cleared memory is bit-for-bit untouched, degenerate arguments touch nothing, and for excursions whose samples all saturate at +-2 (any larger magnitude incl. infinities) the output stays in [-1,1] without sign flips, all for frames of 1-4 samples; general excursions, channel independence and the decoder gain law gave no solver verdict and are not claimed', '2/C19'),
  'C08': ('range coder round trips, accounting invariant (inductive) and termination lemma decided over all parameters within small buffer/sequence bounds', '2/C08'),
 }
 NA = {
